@@ -160,13 +160,41 @@ def build_traces(path, tier, seed):
         recs.append({"tid": tid, "kind": "scan", "dt": enc(dt), "ns": enc_seq(ns), "we": enc_seq(we), "off": enc(off), "points": points,
                      "measure": m, "angles": enc_seq(ang), "vals": vals})
         meta[tid] = {"kind": "scan", "n": n, "off": off, "points": points, "measure": m}
+    # the scan returns exactly the measure of combine_at_angle(ns, we, angle) -- also for spectral measures and when the
+    # components were built with settings of their own (the combination is a new record with the library's defaults)
+    for j in range(3 if tier == "quick" else 12):
+        n = int(rng.integers(30, 120))
+        dt = 0.01
+        ns_, _ = gen.record(rng, n, amp=1.0)
+        we_, _ = gen.record(rng, n, amp=1.0)
+        a = eqsig.AccSignal(ns_, dt, response_times=np.array([0.3, 1.0, 2.0]), smooth_fa_freqs=np.array([1.0, 2.0, 5.0]))
+        b = eqsig.AccSignal(we_, dt) if j % 2 else eqsig.AccSignal(we_, dt, response_times=np.array([0.5, 0.8]))
+        param = ["s_a", "s_d", "smooth_fa_spectrum"][j % 3]
+        off = float(rng.choice([0.0, 20.0, -60.0]))
+        with warnings.catch_warnings():
+            warnings.simplefilter("ignore")
+            ang, vals = multiple.compute_rotated(a, b, angle_off_ns=off, parameter=param, points=3)
+            want = [np.asarray(getattr(multiple.combine_at_angle(a, b, float(t_)), param), dtype=float) for t_ in ang]
+        vals = np.asarray(vals, dtype=float)
+        ok_shape = vals.ndim == 2 and vals.shape == (3, len(want[0]))
+        tid += 1
+        recs.append({"tid": tid, "kind": "rel", "clause": "ScanValues", "tol": enc(1e-9), "scale": enc(float(np.max(np.abs(np.concatenate(want)))) + 1e-300),
+                     "x": enc_seq(np.concatenate(want)), "y": enc_seq(np.ravel(vals) if ok_shape else [])})
+        meta[tid] = {"kind": "rel", "law": "scan = measure of combine_at_angle", "parameter": param, "n": n, "off": off,
+                     "components": "built with response_times / smoothing frequencies of their own"}
     for i in range(nclu):
         k = int(rng.integers(2, 5))
         n = int(rng.integers(40, 120))
         steps = int(rng.integers(2, 9))
         master = int(rng.integers(0, k))
         base = np.cumsum(rng.standard_normal(n + 2 * steps))
-        trend = bool(rng.integers(4) == 0)
+        longrec = i >= nclu - (1 if tier == "quick" else 4)
+        if longrec:
+            # a long record with a long quiet (exactly zero) pre-event part: only the late part tells the lags apart
+            k, n = 2, int(rng.integers(4300, 4600))
+            master = int(rng.integers(0, 2))
+            base = np.concatenate([np.zeros(n + 2 * steps - 170), np.cumsum(rng.standard_normal(170))])
+        trend = bool(rng.integers(4) == 0) and not longrec
         if trend:
             # exactly representable linear trend (counts, halves), optionally with a ripple whose period is shorter than the
             # search window: x[n+d] - x[n] is then EXACTLY constant for some d, only the true lag makes the overlap coincide
@@ -189,7 +217,7 @@ def build_traces(path, tier, seed):
                     s = s + 0.01 * rng.standard_normal(n)             # not an exact copy
                 s = s + (rng.uniform(-0.05, 0.05) if (i % 3 == 0 and not trend) else 0.0)
                 sigs.append(s)
-        if trend is False and rng.integers(5) == 0:
+        if trend is False and not longrec and rng.integers(5) == 0:
             # counts in a narrow integer dtype (squared residuals leave the dtype): exact delayed copies
             dt_, top = [(np.int8, 120), (np.int16, 30000), (np.int32, 2.0e9)][int(rng.integers(3))]
             m_ = max(float(np.max(np.abs(base))), 1e-300)
@@ -214,7 +242,22 @@ def build_traces(path, tier, seed):
             wm = 1               # the record ends before the window would start: use the default window instead
         with warnings.catch_warnings():
             warnings.simplefilter("ignore")
-            c = eqsig.Cluster([s.copy() for s in sigs], dt, master_index=gen.intlike(rng, master), stypes="acc" if i % 2 else "custom")
+            c = eqsig.Cluster([s.copy() for s in sigs], dt, master_index=gen.intlike(rng, master), stypes="acc" if rng.integers(2) else "custom")
+
+            def _same_start():
+                if wm == 0:
+                    c.same_start(start=0, end=(e_idx - 1) * dt + 0.004)
+                elif wm == 1:
+                    c.same_start()
+                elif wm == 2:
+                    c.same_start(start=(s_idx + 0.4) * dt)
+                else:
+                    c.same_start(start=1, end=-1)
+            if rng.integers(3) == 0:
+                # history: the same section was already aligned once (and its averages looked up) before the lags are removed;
+                # what the cluster holds after that first alignment is the starting point of the recorded behaviour
+                _same_start()
+                sigs = [np.array(c.values_by_index(j), dtype=float) for j in range(k)]
             c.time_match(steps=gen.intlike(rng, steps))
             v1raw = [c.values_by_index(j) for j in range(k)]
             arr1 = [bool(isinstance(v, np.ndarray) and v.dtype.kind in "fiu") for v in v1raw]
